@@ -165,6 +165,8 @@ class AddressAg(AddressBase):
                 self._type = "any"
             elif self.ipnet.prefixlen == 32:
                 self._type = "host"
+                if self._platform == "ios":
+                    self._sequence = 0
             elif self._platform == "ios":
                 self._type = "subnet"
                 self._sequence = 0
